@@ -166,6 +166,14 @@ def run_case(case, ob, tier):
     v2 = Vars('s_')
     sp2 = spec.run(A, 1, v2, reg_init='sym', mem_init='sym')
     equiv.inductive_step(ob, pair, v2, site + ':step', memkeyB=memkey(A), assume=[z3.Not(d) for d in sp2.double_write])
+    if any(n.op in 'm@' for n in A.logic):
+        # "a testbench written against the original ... runs unchanged on the result": also when that testbench uses
+        # FastSimulation (memory_value_map keyed by the ORIGINAL MemBlock)
+        Kf = min(2, case['K'])
+        v3 = Vars('f_')
+        sp3 = spec.run(A, Kf, v3, reg_init='reset', mem_init='sym')
+        equiv.bmc_outputs(ob, pair, Kf, v3, site + ':bmc-from-reset(FastSimulation)', reg_init='reset', memkeyB=memkey(A),
+                          assume=[z3.Not(d) for d in sp3.double_write], kindB='fast', compare_mems=False)
 
 
 def replay(cex):
@@ -189,6 +197,7 @@ def replay(cex):
         return cex['obligation'] in bad, 'structural predicates failing on the real result: %r' % bad
     pair = make_pair(A, B)
     step = ':step' in site
-    differs, text = equiv.replay_pair(pair, 1 if step else case['K'], cex.get('model', {}),
-                                      reg_init='sym' if step else 'reset', memkeyB=memkey(A))
+    fast = 'FastSimulation' in site
+    differs, text = equiv.replay_pair(pair, 1 if step else (min(2, case['K']) if fast else case['K']), cex.get('model', {}),
+                                      reg_init='sym' if step else 'reset', memkeyB=memkey(A), **({'kindB': 'fast'} if fast else {}))
     return differs, 'case=%r\n%s' % (case, text)
